@@ -347,7 +347,8 @@ def answerCert (r : Req) : String :=
       match mk T.hasPre with
       | none => "bad-request:model"
       | some m =>
-        let res := [false, true].map fun anch =>
+        let modes := r.getD "modes" "01"
+        let res := ([false, true].filter fun a => modes.contains (if a then '1' else '0')).map fun anch =>
           let f := buildSim m.A B n anch
           let ok := certOk m.A B n anch first f allBytes
           (anch, ok, if ok then "ok" else certDiag m.A B n anch first f showSt)
@@ -375,7 +376,8 @@ def answerCertPair (r : Req) : String :=
       let B := TB.toAut
       let n := TB.states.size
       let first := r.flag "first"
-      let res := [false, true].map fun anch =>
+      let modes := r.getD "modes" "01"
+      let res := ([false, true].filter fun a => modes.contains (if a then '1' else '0')).map fun anch =>
         -- a mode unsupported by either side is skipped: start kinds may differ by configuration
         if (A.start anch).isNone || (B.start anch).isNone then (anch, true, "skipped")
         else
